@@ -53,6 +53,14 @@ def dialect_header_kw(header, count, names):
     return None
 
 
+def title_of(case, ci, c):
+    """the header text of column number ci: in a fifth of the tables with a header row, every other column has a title of
+    its own (declared in the metadata as `titles`), the rest are headed by their names"""
+    if case['header'] and case['nrow'] % 5 == 2 and ci % 2 == 0:
+        return c['name'] + ' (T)'
+    return c['name']
+
+
 def render(toks, seps):
     out = toks[0]
     for s, t in zip(seps, toks[1:]):
@@ -428,7 +436,8 @@ class C16(core.Prop):
                 return s
             lines = []
             if case['header']:
-                lines.append(delim.join(cell({'type': 'string'}, c['name']) for c in case['cols']))
+                # (some columns may carry a title - what the header row of the file says - that differs from the declared name)
+                lines.append(delim.join(cell({'type': 'string'}, title_of(case, ci, c)) for ci, c in enumerate(case['cols'])))
             for r in range(case['nrow']):
                 lines.append(delim.join(cell(c, c['vals'][r]) for c in case['cols']))
             text = ''.join(l + '\n' for l in lines)
@@ -448,6 +457,8 @@ class C16(core.Prop):
                 else:
                     dtp = c['type']
                 columns.append({'name': c['name'], 'datatype': dtp})
+                if case['header'] and title_of(case, len(columns) - 1, c) != c['name']:
+                    columns[-1]['titles'] = title_of(case, len(columns) - 1, c)
             dialect = {}
             if case['delimiter']:
                 dialect['delimiter'] = case['delimiter']
